@@ -232,14 +232,25 @@ def rule_kg_tracking(F, ctx):
     # (1) initialised from the parameter
     ok1 = tg in f.derive({init}, through_calls=False)
     # (2) every authorization call takes its graph from `targets`
-    ok2 = all(len(c.args) > 3 and op_local(c.args[3]) in d_t for c in aos)
+    def is_none(local):
+        """the operand is a literal Option::None (the `no graph known` case)"""
+        for o in (common.origins(f, local) | {local}) if local is not None else ():
+            for i_ in range(f.n):
+                for st in f.stmts(i_):
+                    rv = st["r"]
+                    if st["d"]["l"] == o and not proj(st["d"]) and rv.get("k") == "agg" and rv.get("adt") == "std::option::Option" and rv.get("var") == "None":
+                        return True
+        return False
+    ok2 = all(len(c.args) > 3 and (op_local(c.args[3]) in d_t or is_none(op_local(c.args[3])) or (op_local(c.args[3]) is None and "None" in str(c.args[3]))) for c in aos)
     # one call outside any inner loop over targets (executed for every parsed statement) + one inside a loop over the rest
     inner = []
     for c in aos:
         # inner loop: the call sits in a cycle that does not contain the parse call
         cyc = c.bb in f.reachable_from([c.target] if c.target is not None else [], stop={ps[0].bb})
         inner.append(cyc)
-    ok2 = ok2 and any(inner) and not all(inner)
+    # the members are walked by a loop over (a view of) targets; that every parsed line is authorized at least once,
+    # whatever the size of the set, is R-AUTH-1's must-pass obligation
+    ok2 = ok2 and any(inner)
     # (3) updates under the KgUse / KgCreate arms, from the parsed statement
     upd = {}
     for (bb, adt, pl, mm, other) in f.enum_switches("statement::meta::MetaCommand"):
@@ -264,7 +275,7 @@ def rule_kg_tracking(F, ctx):
             upd[k] = upd.get(k, False) or hit
     ok3 = upd.get("KgUse", False) and upd.get("KgCreate", False)
     ctx.site("targets initialised from the request's graphs", f.where(), ok=ok1)
-    ctx.site("every authorization call takes its graph from targets; first target unconditionally, the rest in a loop", f.where(), ok=ok2, calls=len(aos))
+    ctx.site("every authorization call takes its graph from targets (or None when no graph is known); the members are walked by a loop", f.where(), ok=ok2, calls=len(aos))
     ctx.site("targets updated under KgUse and KgCreate from the parsed statement", f.where(), ok=ok3, updates=upd)
     if not (ok1 and ok2 and ok3):
         ctx.violation(APL + ":R-AUTH-4:kg-not-tracked", "the knowledge graphs used for the per-KG role lookup do not follow the program (initialised from the request: %s; every member checked: %s; updated on .kg use/.kg create: %s): later statements are authorized against the wrong graph" % (ok1, ok2, ok3), f.where())
